@@ -270,4 +270,9 @@ pub fn run(ctx: &Ctx) {
         cls(ctx, &x, "junk");
         check(ctx, &x, None, "random bytes");
     }
+    // history independence: the same ordinary calls before and after calls that fail or are unusual
+    {
+        let mut hrng = Rng::derive(ctx.seed, 13, 99);
+        super::disturb::probe_history_independence(ctx, "C13", &mut hrng, ctx.pick(16, 60), &super::disturb::standard_probe);
+    }
 }
